@@ -1,7 +1,151 @@
-"""C13 - carrier contract for the bounded stand-in bounded.c13 (never counted as proved); deductive contracts are added below as they are built."""
+"""C13 - designed filters.  Deductive part: the design bodies are executed symbolically over the ZFilter operator
+contracts (contracts/c05.py, rational functions at an evaluation point u = z**-1), for ALL cut-offs in (0, pi):
+unit gain at DC (u == 1) / Nyquist (u == -1), the single pole strictly inside the unit circle, and the
+comb / resonator transfer functions (generic u).  cos, sin, sqrt, exp are uninterpreted with the listed axioms.
+Half power at the cut-off, monotonicity, stream-valued parameters and gammatone stay in the bounded grid."""
+import ast
+import z3
 from pyvc.contract import Contract, Mode
+from pyvc.sym import Int, Real, Const, Ref, UFn, REAL, INT, Unsupported
+from pyvc import library as lib, sym
 from pyvc.bounded import bounded_check
+from contracts import c05
+from contracts.c05 import PV, _zf_binop, _zf_unary, _pv_cmp, _zisinst, NUM, DEN, _is_filt
 
 carrier = Contract(name="C13-bounded", qual=None, kind="function", props=["C13"], modes={}, replay="oracles.bounded_adapter:c13",
-                   stated=["decided by the bounded stand-in bounded.c13 only"])
+                   stated=["numeric grid (bounded stand-in)"])
 carrier.extra_checks = [bounded_check("bounded.c13", "filter-designs-numeric-grid", ["C13"])]
+
+COS = UFn(z3.Function("COSF", REAL, REAL), 1)
+SIN = UFn(z3.Function("SINF", REAL, REAL), 1)
+SQRT = UFn(z3.Function("SQRTF", REAL, REAL), 1)
+EXP = UFn(z3.Function("EXPF", REAL, REAL), 1)
+PI = z3.Real("PI_C")
+U = z3.Real("point_u")           # the value of z**-1 at the evaluation point
+AX = [
+    ("real:pi", "pi > 3 and pi < 4"),
+    ("real:cos^2+sin^2=1", "forall(lambda t: cos(t) * cos(t) + sin(t) * sin(t) == 1, Real)"),
+    ("real:sin>0-on-(0,pi)", "forall(lambda t: implies(t > 0 and t < pi, sin(t) > 0), Real)"),
+    ("real:sqrt", "forall(lambda t: implies(t >= 0, sqrt(t) >= 0 and sqrt(t) * sqrt(t) == t), Real)"),
+    ("real:exp>0", "forall(lambda t: exp(t) > 0, Real)"),
+    ("real:exp<1-for-negative", "forall(lambda t: implies(t < 0, exp(t) < 1), Real)"),
+]
+
+
+def z_obj(m):
+    """the module-level `z` (ZFilter({-1: 1})): the rational function 1/u"""
+    return m.new_obj("ZFilter", {"numpoly": PV(sym.to_real(1), n=z3.IntVal(1)), "denpoly": PV(U, n=z3.IntVal(1), tag="x")})
+
+
+class ZGlobal:
+    """resolved lazily to a fresh ZFilter object per path"""
+    pass
+
+
+@lib.callee
+def thub_model(m, args, kwargs):
+    """thub(number, n) is that number (contract 'thub', C03)"""
+    if sym.is_num(args[0]):
+        return args[0]
+    raise Unsupported("thub of a non-number in a constant design")
+
+
+def _binop(m, op, a, b):
+    if isinstance(a, ZGlobal):
+        a = z_obj(m)
+    if isinstance(b, ZGlobal):
+        b = z_obj(m)
+    if isinstance(op, ast.Pow) and _is_filt(a) and isinstance(b, int) and b < 0:
+        # postcondition of ZFilter.__pow__ for n < 0: the reciprocal to the power -n
+        n1, d1 = m.heap[(a.id, "numpoly")].v, m.heap[(a.id, "denpoly")].v
+        if m.branch(n1 == 0):
+            raise sym.PyRaise("ZeroDivisionError")
+        N = D = sym.to_real(1)
+        for _ in range(-b):
+            N, D = N * d1, D * n1
+        return m.new_obj("ZFilter", {"numpoly": PV(N), "denpoly": PV(D)})
+    if isinstance(op, ast.Pow) and _is_filt(a) and sym.is_z3(b) and b.sort() == INT:
+        # z ** -delay with a symbolic integer delay >= 1: u ** delay, an opaque non-zero value UPOW(delay)
+        return m.new_obj("ZFilter", {"numpoly": PV(UPOW(-b)), "denpoly": PV(sym.to_real(1))})
+    return _zf_binop(m, op, a, b)
+
+
+UPOW = z3.Function("UPOW", INT, REAL)      # u ** k
+
+
+def _design(name, qual, modes, stated, extra_env=None):
+    env = {"NUM": NUM, "DEN": DEN, "cos": COS, "sin": SIN, "sqrt": SQRT, "exp": EXP, "pi": PI, "U": U, "UPOW": UFn(UPOW, 1)}
+    env.update(extra_env or {})
+    c = Contract(name=name, qual=qual, kind="function", props=["C13"], modes=modes,
+                 globs={"cos": COS, "sin": SIN, "sqrt": SQRT, "exp": EXP, "pi": PI, "e": z3.Real("E_C"), "thub": thub_model, "z": ZGlobal(), "Iterable": "Iterable", "inf": float("inf")},
+                 spec_env=env, axioms=AX, replay="oracles.bounded_adapter:c13", default_elem=Real, stated=stated)
+    c.binop_hook = _binop
+    c.compare_hook = _pv_cmp
+    c.unary_hook = _zf_unary
+    c.isinstance_hook = lambda m, v, cls: (lib.is_iterable(m, v) if cls == "Iterable" else _zisinst(m, v, cls))
+    c.assumptions = ["cos / sin / sqrt / exp are uninterpreted functions with the axioms: " + "; ".join("%s: %s" % a for a in AX),
+                     "the design bodies call the ZFilter operators through the postconditions of their contracts (contracts/c05.py)"]
+    return c
+
+
+def _generic(mode):
+    mode.generic_point = True
+    mode.note = "the evaluation point u is generic (not a root of any non-zero polynomial of the design)"
+    return mode
+
+
+def _lp_modes(dc_point, nyq=False):
+    pt = "U == 1" if not nyq else "U == -1"
+    return {
+        "gain-at-%s" % ("Nyquist" if nyq else "DC"): Mode(params=dict(cutoff=Real), requires=["cutoff > 0", "cutoff < pi", pt],
+                                                         ensures=[("S:unit-gain-at-%s" % ("Nyquist" if nyq else "DC"), "NUM(result) == DEN(result) and DEN(result) != 0")]),
+        "generic-point": _generic(Mode(params=dict(cutoff=Real), requires=["cutoff > 0", "cutoff < pi"],
+                                       ensures=[("S:pole-strictly-inside-the-unit-circle", "R > -1 and R < 1")])),
+    }
+
+
+_desc = "unit gain at %s and the single pole (at z = %sR) strictly inside the unit circle, for every cut-off in (0, pi)"
+designs = []
+for qual, nm, nyq, sign in (("lowpass#1", "lowpass.pole", False, ""), ("highpass#1", "highpass.pole", True, "-"), ("lowpass#2", "lowpass.z", False, "-"), ("highpass#2", "highpass.z", True, ""),
+                            ("lowpass#3", "lowpass.pole_exp", False, ""), ("highpass#3", "highpass.pole_exp", True, "-"), ("lowpass#4", "lowpass.z_exp", False, "-"), ("highpass#4", "highpass.z_exp", True, "")):
+    modes = _lp_modes(None, nyq)
+    # the pole: the design is gain * (1 +- u) / (1 -+ R u) or (1-R)/(1 -+ R u): as a rational function in the generic u
+    designs.append(_design(nm, "audiolazy/lazy_filters.py::" + qual, modes, [_desc % ("Nyquist" if nyq else "DC", sign)]))
+
+comb_fb = _design("comb.fb", "audiolazy/lazy_filters.py::comb#1", {
+    "any": _generic(Mode(params=dict(delay=Int, alpha=Real), requires=["delay >= 1"],
+                ensures=[("S:y[n]=x[n]+alpha*y[n-delay]:H=1/(1-alpha*z^-delay)", "NUM(result) * (1 - alpha * UPOW(delay)) == DEN(result) and DEN(result) != 0")]))},
+    ["comb.fb realises y[n] = x[n] + alpha*y[n-delay]: transfer function 1/(1 - alpha z^-delay) (with C04's difference equation)"])
+comb_ff = _design("comb.ff", "audiolazy/lazy_filters.py::comb#3", {
+    "any": _generic(Mode(params=dict(delay=Int, alpha=Real), requires=["delay >= 1"],
+                ensures=[("S:y[n]=x[n]+alpha*x[n-delay]:H=1+alpha*z^-delay", "NUM(result) == (1 + alpha * UPOW(delay)) * DEN(result) and DEN(result) != 0")]))},
+    ["comb.ff realises y[n] = x[n] + alpha*x[n-delay]"])
+
+
+# e ** x  ->  exp(x)
+_base_binop = _binop
+
+
+def _binop2(m, op, a, b):
+    if isinstance(op, ast.Pow) and sym.is_z3(a) and a.eq(z3.Real("E_C")):
+        return EXP.decl(sym.to_real(b))
+    return _base_binop(m, op, a, b)
+
+
+comb_tau = _design("comb.tau", "audiolazy/lazy_filters.py::comb#2", {
+    "any": _generic(Mode(params=dict(delay=Int, tau=Real), requires=["delay >= 1", "tau != 0"],
+                         ensures=[("S:alpha=e**(-delay/tau)", "NUM(result) * (1 - exp(-real(delay) / tau) * UPOW(delay)) == DEN(result) and DEN(result) != 0")]))},
+    ["comb.tau is the feedback comb with alpha = e**(-delay/tau)"])
+comb_tau.binop_hook = _binop2
+
+_RES = "exp(-bandwidth * 0.5)"
+for k, (nm, numer) in enumerate((("poles_exp", "gain"), ("freq_poles_exp", "gain"), ("z_exp", "gain * (1 - U * U)"), ("freq_z_exp", "gain * (1 - U * U)")), 1):
+    angle = "cost" if nm in ("poles_exp", "z_exp") else "cos(freq)"
+    c = _design("resonator." + nm, "audiolazy/lazy_filters.py::resonator#%d" % k, {
+        "generic-point": _generic(Mode(params=dict(freq=Real, bandwidth=Real), requires=["bandwidth > 0", "freq > 0", "freq < pi"],
+                                       ensures=[("S:two-poles-of-radius-exp(-bandwidth/2)",
+                                                 "NUM(result) * (1 - 2 * %s * %s * U + %s * %s * U * U) == (%s) * DEN(result) and DEN(result) != 0" % (_RES, angle, _RES, _RES, numer)),
+                                                ("S:pole-radius-inside-the-unit-circle", "%s > 0 and %s < 1" % (_RES, _RES))]))},
+        ["resonator.%s: denominator 1 - 2 R cos(theta) z^-1 + R^2 z^-2 with pole radius R = exp(-bandwidth/2) < 1" % nm])
+    c.binop_hook = _binop2
+    designs.append(c)
